@@ -204,11 +204,60 @@ func sortedKeys[M ~map[string]V, V any](m M) []string {
 
 // allInstrs iterates over instructions of f.
 func allInstrs(f *ssa.Function, fn func(ssa.Instruction)) {
+	dead := staticallyDead(f)
 	for _, b := range f.Blocks {
+		if dead[b] {
+			continue
+		}
 		for _, i := range b.Instrs {
 			fn(i)
 		}
 	}
+}
+
+var deadMemo = map[*ssa.Function]map[*ssa.BasicBlock]bool{}
+
+// staticallyDead: blocks that can be entered only through an edge whose condition compares nil with nil (deadEdge):
+// such code cannot execute and no rule looks at it. The recover block is entered by the runtime, not by an edge.
+func staticallyDead(f *ssa.Function) map[*ssa.BasicBlock]bool {
+	if d, ok := deadMemo[f]; ok {
+		return d
+	}
+	any := false
+	for _, b := range f.Blocks {
+		for si := range b.Succs {
+			if deadEdge(b, si) {
+				any = true
+			}
+		}
+	}
+	d := map[*ssa.BasicBlock]bool{}
+	if any && len(f.Blocks) > 0 {
+		reach := map[*ssa.BasicBlock]bool{}
+		var walk func(b *ssa.BasicBlock)
+		walk = func(b *ssa.BasicBlock) {
+			if reach[b] {
+				return
+			}
+			reach[b] = true
+			for si, s := range b.Succs {
+				if !deadEdge(b, si) {
+					walk(s)
+				}
+			}
+		}
+		walk(f.Blocks[0])
+		if f.Recover != nil {
+			walk(f.Recover)
+		}
+		for _, b := range f.Blocks {
+			if !reach[b] {
+				d[b] = true
+			}
+		}
+	}
+	deadMemo[f] = d
+	return d
 }
 
 // withAnons: f and all nested anonymous functions.
